@@ -273,9 +273,11 @@ def config_check(cfg):
                         % (ctx0, out1.size, out1.size / nc_out, nc_out, (ns + cfg.get("ns2add", 0)) * runs))
     else:
         o = out1.reshape(-1, nc_out)
-        if runs == 2 and not np.array_equal(o[:ns], o[ns:]):
+        per_run = ns + cfg.get("ns2add", 0)
+        if runs == 2 and not np.array_equal(o[:per_run], o[per_run:]):
             seen.setdefault("append", "%s: append mode does not concatenate two identical runs" % ctx0)
-        o = o[:ns]
+        first_run = o[:per_run]
+        o = first_run[:ns]
         if nc_out > ncv and not np.array_equal(o[:, ncv:], sync[:, :nc_out - ncv]):
             bad = np.flatnonzero(np.any(o[:, ncv:] != sync[:, :nc_out - ncv], axis=1))
             seen.setdefault("sync", "%s: the sync channel is not copied bit for bit: %d samples differ (first at %d: %d instead of %d)"
@@ -286,8 +288,8 @@ def config_check(cfg):
             seen.setdefault("reference", "%s: output differs from batch-wise in-memory destriping with the documented margins by %.1f LSB at sample %d channel %d"
                             % (ctx0, dd.max(), t, c))
         if cfg.get("ns2add"):
-            pad = out1.reshape(-1, nc_out)[ns:]
-            if not np.array_equal(pad, np.tile(out1.reshape(-1, nc_out)[ns - 1], (pad.shape[0], 1))):
+            pad = first_run[ns:]
+            if not np.array_equal(pad, np.tile(first_run[ns - 1], (pad.shape[0], 1))):
                 seen.setdefault("padding", "%s: the padding samples do not repeat the last sample" % ctx0)
     # QC files
     sat = art1["saturation"]
@@ -303,6 +305,7 @@ def config_check(cfg):
             seen.setdefault("qc:files", "%s: %s not written" % (ctx0, f))
     # ---- several workers: every trace
     stats = []
+    shown = None
     for p in range(2, cfg["pmax"] + 1):
         ctx = "%s workers=%d" % (ctx0, p)
         art, s, exc = execute(fbin, os.path.join(d, "op"), cfg, p, append_runs=runs)
@@ -391,10 +394,14 @@ def config_check(cfg):
         if len(outcomes) > 1:
             seen.setdefault("schedule-dependent", "%s: %d different results over %d schedules" % (ctx, len(outcomes), len(compare)))
         stats.append((p, sum(lens.values()), sched.overlaps(per), len(conf), norient, ncyc, len(compare), len(outcomes)))
+        if conf and shown is None:
+            shown = dict(configuration={k: v for k, v in cfg.items() if k != "labels"}, workers=p, shared_operations=sum(lens.values()),
+                         value_conflict_pairs=len(conf), first_conflict=[repr(conf[0][0]), repr(conf[0][1])],
+                         executed_schedule=[int(t) for t in compare[-1][0][:60]], result="byte-identical to the one-worker run")
     x = dict(worker_configurations=len(stats), shared_operations=sum(st[1] for st in stats), overlapping_write_pairs=sum(st[2] for st in stats),
              value_conflict_pairs=sum(st[3] for st in stats), orientations=sum(st[4] for st in stats), cyclic_orientations=sum(st[5] for st in stats),
              schedules_executed=sum(st[6] for st in stats), distinct_results=sum(st[7] for st in stats))
-    return Res(list(seen.items()), o=tuple((st[0], st[3] > 0, st[7]) for st in stats), tr=ntr, x=x)
+    return Res(list(seen.items()), o=tuple((st[0], st[3] > 0, st[7]) for st in stats), tr=ntr, x=x, s=shown)
 
 
 # ------------------------------------------------------------------ conformance: a free-running real joblib run
